@@ -249,3 +249,233 @@ Proof.
   rewrite <- ft_read_fst in *. destruct (ft_read a s) as [s2 raw]. cbn [fst] in *.
   eapply rtp_trans; [exact H1|]. apply rtp_setdata; [eapply rtp_wf, H1 | exact Hl1].
 Qed.
+
+(* ---------- Suicide ---------- *)
+Lemma upd_comm a b f g s : a <> b -> upd a f (upd b g s) = upd b g (upd a f s).
+Proof. intros H. unfold upd. dstate s. cbn. rewrite (alter_commute f g ob a b H). reflexivity. Qed.
+
+Lemma set_balance_raw_loaded a n s :
+  loaded (token s) s -> set_balance_raw a n s = mark_dirty (token s) (upd (token s) (f_data (erckey a) (beb n)) s).
+Proof. intros H. unfold set_balance_raw. rewrite (ensure_loaded' true _ s H). reflexivity. Qed.
+
+Lemma is_erckey_erckey a : is_erckey (erckey a) = true.
+Proof. unfold is_erckey, erckey. apply N.leb_le. lia. Qed.
+
+Lemma oeq_SS ex tok cs a o : oeq ex tok cs a (f_suic (o_suicided o) (f_suic true o)) o.
+Proof. split; try reflexivity. intros k. apply veq_refl. Qed.
+
+Lemma oeq_DD tok cs a w o :
+  oeq false tok cs tok (f_data (erckey a) (beb (bev (data_of o (erckey a)))) (f_data (erckey a) w o)) o.
+Proof.
+  split; try reflexivity. intros k. rewrite !data_of_f_data. destruct (decide (k = erckey a)) as [->|]; [|apply veq_refl].
+  unfold veq. cbn. rewrite N.eqb_refl, is_erckey_erckey. cbn. apply bev_beb.
+Qed.
+
+Lemma oeq_DSDS tok cs a w o :
+  oeq false tok cs tok (f_data (erckey a) (beb (bev (data_of o (erckey a))))
+                          (f_suic (o_suicided o) (f_data (erckey a) w (f_suic true o)))) o.
+Proof.
+  split; try reflexivity. intros k.
+  change (data_of (f_data (erckey a) (beb (bev (data_of o (erckey a)))) (f_suic (o_suicided o) (f_data (erckey a) w (f_suic true o)))) k)
+    with (data_of (f_data (erckey a) (beb (bev (data_of o (erckey a)))) (f_data (erckey a) w o)) k).
+  apply (oeq_DD tok cs a w o).
+Qed.
+
+Definition suicide_core (a : N) (prev : bool) (bal : N) (s2 : state) : state :=
+  set_balance_raw a 0 (mark_dirty a (upd a (f_suic true) (push (ESuicide a prev bal) s2))).
+
+Lemma rtp_suicide_core tch a s2 oa ot :
+  wf_al s2 -> objs s2 !! a = Some oa -> objs s2 !! token s2 = Some ot ->
+  RTp false tch s2 (suicide_core a (o_suicided oa) (bev (data_of ot (erckey a))) s2).
+Proof.
+  intros Hw Hoa Hot. unfold suicide_core.
+  set (tok := token s2). set (k := erckey a). set (bal := bev (data_of ot k)).
+  set (e := ESuicide a (o_suicided oa) bal). set (s3 := push e s2).
+  set (S := f_suic true). set (S' := f_suic (o_suicided oa)).
+  set (D := f_data k (beb 0)). set (D' := f_data k (beb bal)).
+  set (Y1 := upd a S s3). set (Z1 := mark_dirty a Y1).
+  assert (La3 : loaded a s3) by (exists oa; exact Hoa).
+  assert (Lt3 : loaded tok s3) by (exists ot; exact Hot).
+  assert (LaY : loaded a Y1) by (apply loaded_upd, La3).
+  assert (LtY : loaded tok Y1) by (apply loaded_upd, Lt3).
+  assert (LaZ1 : loaded a Z1) by (apply loaded_mark, LaY).
+  assert (LtZ1 : loaded tok Z1) by (apply loaded_mark, LtY).
+  assert (HtZ1 : token Z1 = tok) by (apply (same_rest_trans _ _ _ (same_rest_mark a Y1) (same_rest_upd a S s3))).
+  rewrite set_balance_raw_loaded by (rewrite HtZ1; exact LtZ1). rewrite HtZ1.
+  fold k. fold D. set (Z := mark_dirty tok (upd tok D Z1)).
+  assert (LaZ : loaded a Z) by (apply loaded_mark, loaded_upd, LaZ1).
+  assert (LtZ : loaded tok Z) by (apply loaded_mark, loaded_upd, LtZ1).
+  assert (HRZ : same_rest Z s2).
+  { eapply same_rest_trans; [apply same_rest_mark|]. eapply same_rest_trans; [apply same_rest_upd|].
+    eapply same_rest_trans; [apply same_rest_mark|]. eapply same_rest_trans; [apply same_rest_upd|]. apply same_rest_push. }
+  assert (HtZ : token Z = tok) by apply HRZ.
+  set (Z0 := upd tok D Y1).
+  assert (HZ : sim false Z Z0).
+  { eapply sim_trans; [apply sim_mark|].
+    apply sim_upd_cong; [apply omorph_data | apply sim_mark | apply loaded_settled', LtZ1 | apply loaded_settled', LtY]. }
+  exists [e]. rt_split.
+  - unfold Z. rewrite journal_mark. cbn. unfold Z1. rewrite journal_mark. reflexivity.
+  - cbn [rev app undo_list fold_left undo e].
+    rewrite (ensure_loaded' false a Z LaZ). destruct LaZ as [oz Hoz]. rewrite Hoz.
+    assert (LaZ : loaded a Z) by (exists oz; exact Hoz).
+    change (fun o => o <| o_suicided := o_suicided oa |>) with S'.
+    rewrite set_balance_raw_loaded by (apply loaded_upd; cbn; rewrite HtZ; exact LtZ).
+    cbn [token upd set]. rewrite HtZ. fold k. fold D'.
+    eapply sim_trans; [apply sim_mark|].
+    eapply sim_trans.
+    { apply sim_upd_cong; [apply omorph_data | | apply loaded_settled', loaded_upd, LtZ | apply loaded_settled', loaded_upd, loaded_upd, LtY].
+      apply sim_upd_cong; [apply omorph_suic | exact HZ | apply loaded_settled', LaZ | apply loaded_settled', loaded_upd, LaY]. }
+    eapply sim_trans; [|apply (sim_push false e s2)]. fold s3. unfold Z0, Y1.
+    destruct (decide (a = tok)) as [Heq|Hne].
+    + assert (ot = oa) by (pose proof Hoa as Hoa'; rewrite Heq in Hoa'; unfold tok in Hoa'; rewrite Hoa' in Hot; congruence). subst ot. rewrite <- Heq. rewrite !upd_upd.
+      apply sim_upd_id; [apply loaded_settled', La3|].
+      intros o'. unfold look. cbn. rewrite Hoa. intros [= <-].
+      fold tok. rewrite <- Heq. cbn. unfold D', S', D, S, bal, k. rewrite Heq. apply oeq_DSDS.
+    + rewrite (upd_comm a tok S' D) by exact Hne. rewrite (upd_upd tok), (upd_upd a).
+      eapply sim_trans.
+      * apply sim_upd_id; [apply loaded_settled', loaded_upd, Lt3|].
+        intros o'. rewrite look_upd by (apply loaded_settled', La3). rewrite decide_False by congruence.
+        unfold look. cbn. unfold tok. rewrite Hot. intros [= <-]. cbn. unfold D', D, bal, k. apply oeq_DD.
+      * apply sim_upd_id; [apply loaded_settled', La3|].
+        intros o'. unfold look. cbn. rewrite Hoa. intros [= <-]. cbn. apply oeq_SS.
+  - eapply wf_al_rest; eauto.
+  - unfold Z. destruct (ctl_mark tok (upd tok D Z1)) as [H1 H2]. split; [rewrite H1|rewrite H2]; cbn;
+      unfold Z1; destruct (ctl_mark a Y1) as [H3 H4]; [rewrite H3|rewrite H4]; reflexivity.
+  - apply HRZ.
+  - apply HRZ.
+  - repeat constructor.
+Qed.
+
+Lemma objs_ensure_other c a b s : a <> b -> objs (ensure c b s) !! a = objs s !! a.
+Proof.
+  intros H. unfold ensure. destruct (objs s !! b); [reflexivity|].
+  destruct (trie s !! b); cbn; [rewrite lookup_insert_ne by congruence; reflexivity|].
+  destruct c; cbn; [rewrite lookup_insert_ne by congruence|]; reflexivity.
+Qed.
+
+Lemma bal_read_spec a s :
+  exists ot0, objs (ensure true (token s) s) !! token s = Some ot0 /\
+    bal_read a s = (upd (token s) (fun _ => fst (o_getdata (erckey a) ot0)) (ensure true (token s) s),
+                    bev (data_of ot0 (erckey a))).
+Proof.
+  destruct (loaded_ensure_true (token s) s) as [ot0 H]. exists ot0. split; [exact H|].
+  unfold bal_read. rewrite s_getdata_eq, H. reflexivity.
+Qed.
+
+Lemma rtp_suicide tch a s : wf_al s -> RTp false tch s (fst (step (OSuicide a) s)).
+Proof.
+  intros Hw. cbn [step].
+  pose proof (rtp_ensure false tch false a s Hw) as H1. set (s1 := ensure false a s) in *.
+  destruct (objs s1 !! a) as [o|] eqn:Ho; [|exact H1].
+  pose proof (rtp_bal_read false tch a s1 (rtp_wf _ _ _ _ H1)) as H2.
+  destruct (bal_read_spec a s1) as (ot0&Hot0&Hbr). rewrite Hbr in *. cbn [fst] in *.
+  set (tok := token s1) in *. set (ot := fst (o_getdata (erckey a) ot0)) in *.
+  set (s2 := upd tok (fun _ => ot) (ensure true tok s1)) in *.
+  assert (Ht2 : token s2 = tok) by (rewrite (rtp_token _ _ _ _ H2); reflexivity).
+  assert (Hot : objs s2 !! token s2 = Some ot) by (rewrite Ht2; apply (objs_upd_same tok (fun _ => ot) _ ot0 Hot0)).
+  assert (Hd : data_of ot (erckey a) = data_of ot0 (erckey a)) by (destruct (o_getdata_spec (erckey a) ot0) as (_&Hd&_); apply Hd).
+  assert (Hoa : exists oa, objs s2 !! a = Some oa /\ o_suicided oa = o_suicided o).
+  { destruct (decide (a = tok)) as [Heq|Hne].
+    - exists ot. split; [rewrite Heq, <- Ht2; exact Hot|].
+      assert (ot0 = o).
+      { rewrite (ensure_loaded' true tok s1) in Hot0 by (rewrite <- Heq; exists o; exact Ho). rewrite <- Heq in Hot0. congruence. }
+      subst ot0. destruct (o_getdata_spec (erckey a) o) as (_&_&_&_&_&Hs). exact Hs.
+    - exists o. split; [|reflexivity]. unfold s2, upd. cbn. rewrite lookup_alter_ne by congruence.
+      rewrite objs_ensure_other by exact Hne. exact Ho. }
+  destruct Hoa as (oa&Hoa&Hsu).
+  eapply rtp_trans; [exact H1|]. eapply rtp_trans; [exact H2|].
+  pose proof (rtp_suicide_core tch a s2 oa ot (rtp_wf _ _ _ _ H2) Hoa Hot) as H3.
+  rewrite Hsu, Hd in H3. exact H3.
+Qed.
+
+(* ---------- every exported operation ---------- *)
+Definition op_ok (ex tch : bool) (o : op) : Prop :=
+  match o with
+  | OGetCommitted _ _ => False
+  | OSuicide _ => ex = false
+  | OAddFT _ n => n <> 0 \/ tch = true
+  | _ => True
+  end.
+
+Lemma obj_field_loaded {A} s a (f : obj -> A) d o : objs s !! a = Some o -> obj_field s a f d = f o.
+Proof. unfold obj_field. intros ->. reflexivity. Qed.
+
+Lemma rtp_step ex tch o s :
+  wf_al s -> p002 s = true -> op_ok ex tch o -> RTp ex tch s (fst (step o s)).
+Proof.
+  intros Hw Hp Hok.
+  destruct o; cbn [step fst]; try (apply rtp_refl, Hw); try (apply rtp_ensure, Hw).
+  - (* SetNonce *)
+    pose proof (rtp_ensure ex tch true a s Hw) as H1. destruct (loaded_ensure_true a s) as [o Ho].
+    eapply rtp_trans; [exact H1|]. rewrite (obj_field_loaded _ _ _ _ _ Ho). apply rtp_nonce; [eapply rtp_wf, H1|exact Ho].
+  - (* IncNonce *)
+    pose proof (rtp_ensure ex tch true a s Hw) as H1. destruct (loaded_ensure_true a s) as [o Ho].
+    eapply rtp_trans; [exact H1|]. rewrite (obj_field_loaded _ _ _ _ _ Ho). apply rtp_nonce; [eapply rtp_wf, H1|exact Ho].
+  - (* SetData *)
+    pose proof (rtp_ensure ex tch true a s Hw) as H1.
+    eapply rtp_trans; [exact H1|]. apply rtp_setdata; [eapply rtp_wf, H1|apply loaded_ensure_true].
+  - apply rtp_add_balance; auto.
+  - pose proof (rtp_sub_balance ex tch a n s Hw Hp) as H. destruct (sub_balance a n s). exact H.
+  - apply rtp_set_balance; auto.
+  - (* Transfer *)
+    destruct (n =? 0); cbn [fst]; [apply rtp_refl, Hw|].
+    pose proof (rtp_sub_balance ex tch a n s Hw Hp) as H1.
+    eapply rtp_trans; [exact H1|]. apply rtp_add_balance; [eapply rtp_wf, H1|].
+    rewrite (rtp_p002 _ _ _ _ H1). exact Hp.
+  - (* SetCode *)
+    pose proof (rtp_ensure ex tch true a s Hw) as H1. destruct (loaded_ensure_true a s) as [o1 Ho1].
+    set (s1 := ensure true a s) in *.
+    pose proof (rtp_loadcode ex tch a s1 (rtp_wf _ _ _ _ H1)) as H2.
+    destruct (s_loadcode_spec a s1 o1 Ho1) as (Hv&o2&Hs2&Hh&_&_&_&Hc).
+    destruct (s_loadcode a s1) as [s2 prev]. cbn [fst snd] in *. subst prev.
+    assert (Ho2 : objs s2 !! a = Some o2) by (rewrite Hs2; apply (objs_upd_same a (fun _ => o2) s1 o1 Ho1)).
+    eapply rtp_trans; [exact H1|]. eapply rtp_trans; [exact H2|].
+    rewrite (obj_field_loaded _ _ _ _ _ Ho2).
+    assert (Hcs : codes s2 = codes s1) by (rewrite Hs2; reflexivity).
+    rewrite <- Hc, <- Hcs. apply rtp_code; [eapply rtp_wf, H2 | exact Ho2].
+  - (* Suicide *)
+    cbn in Hok. subst ex. apply (rtp_suicide tch a s Hw).
+  - (* AddLog *) apply (rtp_addlog ex tch p s Hw).
+  - apply (rtp_refund ex tch (refund s + n) s Hw).
+  - apply (rtp_refund ex tch (refund s - n) s Hw).
+  - apply rtp_aladdr, Hw.
+  - apply rtp_alslot, Hw.
+  - (* SetTransient *)
+    destruct (tget s a k =? v) eqn:E; cbn [fst]; [apply rtp_refl, Hw|].
+    apply rtp_transient; [exact Hw|]. apply N.eqb_neq, E.
+  - (* AddFT *)
+    pose proof (rtp_ensure ex tch true a s Hw) as H1. set (s1 := ensure true a s) in *.
+    destruct (n =? 0) eqn:En; cbn [fst].
+    + destruct (obj_field s1 a empty false); [|exact H1].
+      eapply rtp_trans; [exact H1|]. apply rtp_touch; [eapply rtp_wf, H1|].
+      cbn in Hok. apply N.eqb_eq in En. destruct Hok; [contradiction|assumption].
+    + eapply rtp_trans; [exact H1|].
+      pose proof (rtp_ft_set ex tch a (fun raw => beb (default 0 raw + n)) s1 (rtp_wf _ _ _ _ H1) (loaded_ensure_true a s)) as H2.
+      destruct (ft_read a s1). exact H2.
+  - (* SubFT *)
+    pose proof (rtp_ensure ex tch true a s Hw) as H1. set (s1 := ensure true a s) in *.
+    eapply rtp_trans; [exact H1|].
+    pose proof (rtp_getdata ex tch a ftkey s1 (rtp_wf _ _ _ _ H1)) as H2.
+    pose proof (loaded_getdata a a ftkey s1 (loaded_ensure_true a s)) as Hl.
+    rewrite <- ft_read_fst in *. destruct (ft_read a s1) as [s2 raw]. cbn [fst] in *.
+    destruct (n =? 0); cbn [fst]; [exact H2|].
+    destruct raw as [r|]; cbn [fst]; [|exact H2].
+    destruct (r <? n); cbn [fst]; [exact H2|].
+    eapply rtp_trans; [exact H2|]. apply rtp_setdata; [eapply rtp_wf, H2|exact Hl].
+  - (* SetFT *)
+    pose proof (rtp_ensure ex tch true a s Hw) as H1.
+    eapply rtp_trans; [exact H1|]. apply rtp_setdata; [eapply rtp_wf, H1|apply loaded_ensure_true].
+  - (* GetBalance *)
+    pose proof (rtp_bal_read ex tch a s Hw) as H. destruct (bal_read a s). exact H.
+  - (* GetData *)
+    pose proof (rtp_ensure ex tch false a s Hw) as H1. eapply rtp_trans; [exact H1|].
+    pose proof (rtp_getdata ex tch a k _ (rtp_wf _ _ _ _ H1)) as H2. destruct (s_getdata a k _). exact H2.
+  - (* GetCommitted *) destruct Hok.
+  - (* GetCode *)
+    pose proof (rtp_ensure ex tch false a s Hw) as H1. eapply rtp_trans; [exact H1|].
+    pose proof (rtp_loadcode ex tch a _ (rtp_wf _ _ _ _ H1)) as H2. destruct (s_loadcode a _). exact H2.
+  - (* GetFT *)
+    pose proof (rtp_ensure ex tch true a s Hw) as H1. eapply rtp_trans; [exact H1|].
+    pose proof (rtp_getdata ex tch a ftkey _ (rtp_wf _ _ _ _ H1)) as H2.
+    rewrite <- ft_read_fst in H2. destruct (ft_read a _). exact H2.
+Qed.
